@@ -386,7 +386,12 @@ impl Gen {
                     if c == (0, 0) {
                         continue;
                     }
-                    let lower = if c.1 > 0 { (c.0, c.1 - 1) } else { (c.0 - 1, 5) };
+                    let lower = match self.r.below(3) {
+                        0 if c.0 > 0 => (c.0 - 1, c.1 + self.r.below(4)), // older term, same or higher index
+                        _ => {
+                            if c.1 > 0 { (c.0, c.1 - 1) } else if c.0 > 0 { (c.0 - 1, 5) } else { continue }
+                        }
+                    };
                     Step { op: Op::Commit(lower), expect: Expect::Reject { why: "commit_backwards".into(), at: 0 } }
                 }
                 6 => {
@@ -418,10 +423,18 @@ impl Gen {
                     let n = self.r.range(2, 4) as usize;
                     let at = self.r.range(1, n as u64 - 1) as usize;
                     let mut ids = self.next_append_ids(n);
-                    let bad = match self.r.below(3) {
+                    let bad = match self.r.below(4) {
                         0 => ids[at - 1],                                  // equal to previous
                         1 => (ids[at - 1].0 + 1, ids[at - 1].1),           // existing index, larger id
-                        _ => (ids[at].0, ids[at].1 + 1),                   // gap
+                        2 => (ids[at].0, ids[at].1 + 1),                   // gap
+                        _ => {
+                            // refused entry FOLLOWED by entries that would be fine on their own: the batch must still
+                            // stop at the refused one
+                            let good_next = ids[at];
+                            ids.insert(at, (ids[at - 1].0, ids[at - 1].1 + 5));
+                            let _ = good_next;
+                            ids[at]
+                        }
                     };
                     ids[at] = bad;
                     let es = ids.into_iter().enumerate().map(|(k, id)| (id, self.payload(k))).collect();
